@@ -65,6 +65,8 @@ GROUPS = {
     # RP: round_integral_exact (PARTIAL theorem: special / zero / exponent >= 0 / exponent <= -35 operands)
     'RP': [('bid128_round_integral.rs', 'bid128_round_integral_exact')],
     'NP': [('bid128_next.rs', 'bid128_nextafter'), ('bid128_nexttoward.rs', 'bid128_nexttoward')],
+    # NA: next after / toward, complete theorems (ImplNext2*.v, ImplNext2Proofs.v); supersedes NP
+    'NA': [('bid128_next.rs', 'bid128_nextafter'), ('bid128_nexttoward.rs', 'bid128_nexttoward')],
     # J: to-integer conversions with complete value/status theorems (Impl/ImplRound.v holds the shared facts; the rninta block is
     # generated from the rnint block by gen_toint_proofs.py)
     'J': [('bid128_to_int32.rs', 'bid128_to_int32_rnint'), ('bid128_to_int32.rs', 'bid128_to_int32_rninta')],
